@@ -58,6 +58,214 @@ static void sweep_msf(const V &a, V &r) {
     r.push_back(bad); r.push_back(first);
 }
 
+// ---- C14 / C11: LWE, polynomial and TLWE operations ----
+// arrays handed to the library sit between guard zones so that any access outside [0,n) that
+// writes is seen as a changed sentinel ("OOB" result), whatever the allocator does
+struct Guarded {
+    enum { G = 24 };
+    int32_t *base; int n;
+    Guarded(int n) : n(n) { base = new int32_t[n + 2 * G]; for (int i = 0; i < n + 2 * G; i++) base[i] = sentinel(i); }
+    ~Guarded() { delete[] base; }
+    static int32_t sentinel(int i) { return (int32_t) (0x5EED0000u + 977u * (unsigned) i); }
+    int32_t *data() { return base + G; }
+    bool intact() const { for (int i = 0; i < G; i++) if (base[i] != sentinel(i) || base[n + G + i] != sentinel(n + G + i)) return false; return true; }
+};
+static void op_lwephase(const V &a, V &r) {  // n key(n) a(n) b
+    int n = a[0];
+    LweParams *lp = new_LweParams(n, 0., 0.25);
+    LweKey *key = new_LweKey(lp); LweSample *c = new_LweSample(lp);
+    for (int i = 0; i < n; i++) { key->key[i] = (int32_t) a[1 + i]; c->a[i] = (int32_t) a[1 + n + i]; }
+    c->b = (int32_t) a[1 + 2 * n];
+    r.push_back(lwePhase(c, key));
+    delete_LweSample(c); delete_LweKey(key); delete_LweParams(lp);
+}
+static void op_lwelin(const V &a, V &r) {  // opcode n p a1(n) b1 a2(n) b2 ; opcode>=100: sample aliases result
+    int opc = a[0], n = a[1]; int32_t p = (int32_t) a[2];
+    bool alias = opc >= 100; if (alias) opc -= 100;
+    LweParams *lp = new_LweParams(n, 0., 0.25);
+    LweSample *c1 = new_LweSample(lp), *c2 = new_LweSample(lp), *res = new_LweSample(lp);
+    Guarded g1(n), g2(n), g3(n);
+    int32_t *o1 = c1->a, *o2 = c2->a, *o3 = res->a;
+    c1->a = g1.data(); c2->a = g2.data(); res->a = g3.data();
+    for (int i = 0; i < n; i++) { c1->a[i] = (int32_t) a[3 + i]; c2->a[i] = (int32_t) a[4 + n + i]; res->a[i] = 12345 + i; }
+    c1->b = (int32_t) a[3 + n]; c2->b = (int32_t) a[4 + 2 * n]; res->b = 777;
+    c1->current_variance = 0.25; c2->current_variance = 0.0625;
+    LweSample *s = alias ? c1 : c2; LweSample *out = c1;
+    switch (opc) {
+        case 0: lweAddTo(c1, s, lp); break;
+        case 1: case 8: lweSubTo(c1, s, lp); break;
+        case 2: lweAddMulTo(c1, p, s, lp); break;
+        case 3: lweSubMulTo(c1, p, s, lp); break;
+        case 4: lweNegate(res, c1, lp); out = res; break;
+        case 5: lweClear(res, lp); out = res; break;
+        case 6: lweNoiselessTrivial(res, p, lp); out = res; break;
+        case 7: lweCopy(res, c1, lp); out = res; break;
+    }
+    if (!g1.intact() || !g2.intact() || !g3.intact()) { r.push_back(-1); r.push_back(-1); r.push_back(-1); }
+    else { for (int i = 0; i < n; i++) r.push_back(out->a[i]); r.push_back(out->b); }
+    c1->a = o1; c2->a = o2; res->a = o3;
+    delete_LweSample(res); delete_LweSample(c2); delete_LweSample(c1); delete_LweParams(lp);
+}
+extern "C" void torusPolynomialMultNaive_aux(Torus32* __restrict result, const int32_t* __restrict poly1, const Torus32* __restrict poly2, const int32_t N);
+static void op_poly(const V &a, V &r) {  // opcode N p a(N) b(N) [c(N)]
+    int opc = a[0], N = a[1]; int32_t p = (int32_t) a[2];
+    TorusPolynomial *A = new_TorusPolynomial(N), *B = new_TorusPolynomial(N), *R = new_TorusPolynomial(N);
+    IntPolynomial *AI = new_IntPolynomial(N), *RI = new_IntPolynomial(N);
+    Guarded ga(N), gb(N), gr(N), gai(N), gri(N);
+    int32_t *oa = A->coefsT, *ob = B->coefsT, *orr = R->coefsT, *oai = AI->coefs, *ori = RI->coefs;
+    A->coefsT = ga.data(); B->coefsT = gb.data(); R->coefsT = gr.data(); AI->coefs = gai.data(); RI->coefs = gri.data();
+    bool hasc = (int) a.size() >= 3 + 3 * N;
+    for (int i = 0; i < N; i++) { A->coefsT[i] = AI->coefs[i] = (int32_t) a[3 + i]; B->coefsT[i] = (int32_t) a[3 + N + i];
+        R->coefsT[i] = hasc ? (int32_t) a[3 + 2 * N + i] : 424242 + i; RI->coefs[i] = 31337; }
+    int32_t *outp = R->coefsT;
+    switch (opc) {
+        case 0: torusPolynomialAdd(R, A, B); break;
+        case 1: torusPolynomialSub(R, A, B); break;
+        case 2: torusPolynomialAddMulZ(R, A, p, B); break;
+        case 3: torusPolynomialSubMulZ(R, A, p, B); break;
+        case 4: torusPolynomialMulByXai(R, p, A); break;
+        case 5: torusPolynomialMulByXaiMinusOne(R, p, A); break;
+        case 6: torusPolynomialMultNaive(R, AI, B); break;
+        case 7: torusPolynomialMultKaratsuba(R, AI, B); break;
+        case 10: torusPolynomialAddMulRKaratsuba(R, AI, B); break;
+        case 11: torusPolynomialSubMulRKaratsuba(R, AI, B); break;
+        case 20: torusPolynomialAddTo(A, B); outp = A->coefsT; break;
+        case 21: torusPolynomialSubTo(A, B); outp = A->coefsT; break;
+        case 22: torusPolynomialAddMulZTo(A, p, B); outp = A->coefsT; break;
+        case 23: torusPolynomialSubMulZTo(A, p, B); outp = A->coefsT; break;
+        case 25: intPolynomialMulByXaiMinusOne(RI, p, AI); outp = RI->coefs; break;
+        case 26: intPolynomialAddTo(AI, AI); outp = AI->coefs; break;
+    }
+    if (!(ga.intact() && gb.intact() && gr.intact() && gai.intact() && gri.intact())) { for (int i = 0; i < 4; i++) r.push_back(-1); }
+    else for (int i = 0; i < N; i++) r.push_back(outp[i]);
+    A->coefsT = oa; B->coefsT = ob; R->coefsT = orr; AI->coefs = oai; RI->coefs = ori;
+    delete_IntPolynomial(RI); delete_IntPolynomial(AI); delete_TorusPolynomial(R); delete_TorusPolynomial(B); delete_TorusPolynomial(A);
+}
+static void op_tlwe(const V &a, V &r) {  // opcode k N p c1((k+1)N) c2((k+1)N)
+    int opc = a[0], k = a[1], N = a[2]; int32_t p = (int32_t) a[3];
+    TLweParams *tp = new_TLweParams(N, k, 0., 0.25);
+    TLweSample *c1 = new_TLweSample(tp), *c2 = new_TLweSample(tp), *res = new_TLweSample(tp);
+    for (int i = 0; i <= k; i++) for (int j = 0; j < N; j++) {
+        c1->a[i].coefsT[j] = (int32_t) a[4 + i * N + j]; c2->a[i].coefsT[j] = (int32_t) a[4 + (k + 1) * N + i * N + j]; res->a[i].coefsT[j] = 99; }
+    TLweSample *out = c1;
+    if (opc == 0) tLweAddTo(c1, c2, tp);
+    else if (opc == 1) tLweSubTo(c1, c2, tp);
+    else if (opc == 2) tLweAddMulTo(c1, p, c2, tp);
+    else if (opc == 3) tLweSubMulTo(c1, p, c2, tp);
+    else if (opc == 4) { tLweMulByXaiMinusOne(res, p, c1, tp); out = res; }
+    if (opc <= 4) { for (int i = 0; i <= k; i++) for (int j = 0; j < N; j++) r.push_back(out->a[i].coefsT[j]); }
+    else if (opc == 5) {
+        LweSample *e = new_LweSample(&tp->extracted_lweparams);
+        Guarded g(k * N); int32_t *o = e->a; e->a = g.data();
+        tLweExtractLweSampleIndex(e, c1, p, &tp->extracted_lweparams, tp);
+        if (!g.intact()) { r.push_back(-1); r.push_back(-1); r.push_back(-1); }
+        else { for (int i = 0; i < k * N; i++) r.push_back(e->a[i]); r.push_back(e->b); }
+        e->a = o; delete_LweSample(e);
+    } else if (opc == 6 || opc == 16) {     // phase under the key held in the first k polynomials of c2
+        TLweKey *key = new_TLweKey(tp);
+        for (int i = 0; i < k; i++) for (int j = 0; j < N; j++) key->key[i].coefs[j] = c2->a[i].coefsT[j];
+        TorusPolynomial *ph = new_TorusPolynomial(N);
+        if (opc == 6) tLwePhase(ph, c1, key);                    // library path (FFT, N = 1024 only)
+        else { torusPolynomialCopy(ph, c1->b); for (int i = 0; i < k; i++) torusPolynomialSubMulRKaratsuba(ph, &key->key[i], &c1->a[i]); }
+        for (int j = 0; j < N; j++) r.push_back(ph->coefsT[j]);
+        delete_TorusPolynomial(ph); delete_TLweKey(key);
+    } else if (opc == 7) {
+        TLweKey *key = new_TLweKey(tp); LweKey *ek = new_LweKey(&tp->extracted_lweparams);
+        for (int i = 0; i < k; i++) for (int j = 0; j < N; j++) key->key[i].coefs[j] = c2->a[i].coefsT[j];
+        tLweExtractKey(ek, key);
+        for (int i = 0; i < k * N; i++) r.push_back(ek->key[i]);
+        delete_LweKey(ek); delete_TLweKey(key);
+    }
+    delete_TLweSample(res); delete_TLweSample(c2); delete_TLweSample(c1); delete_TLweParams(tp);
+}
+
+// ---- C08: key switching ----
+static void op_keyswitch(const V &a, V &r) {  // n nout t b rows(n*t*base*(nout+1)) a(n) bv
+    int n = a[0], nout = a[1], t = a[2], b = a[3]; int base = 1 << b;
+    LweParams *po = new_LweParams(nout, 0., 0.25), *pi = new_LweParams(n, 0., 0.25);
+    LweKeySwitchKey *ks = new_LweKeySwitchKey(n, t, b, po);
+    size_t pos = 4;
+    for (int q = 0; q < n * t * base; q++) { for (int m = 0; m < nout; m++) ks->ks0_raw[q].a[m] = (int32_t) a[pos++]; ks->ks0_raw[q].b = (int32_t) a[pos++]; }
+    LweSample *in = new_LweSample(pi), *res = new_LweSample(po);
+    for (int i = 0; i < n; i++) in->a[i] = (int32_t) a[pos++];
+    in->b = (int32_t) a[pos++];
+    Guarded g(nout); int32_t *o = res->a; res->a = g.data();
+    lweKeySwitch(res, ks, in);
+    if (!g.intact()) { r.push_back(-1); r.push_back(-1); r.push_back(-1); }
+    else { for (int m = 0; m < nout; m++) r.push_back(res->a[m]); r.push_back(res->b); }
+    res->a = o;
+    delete_LweSample(res); delete_LweSample(in); delete_LweKeySwitchKey(ks); delete_LweParams(pi); delete_LweParams(po);
+}
+// real generated key: the phase identity of the theorem checked exactly with the secret keys.
+// returns failures, samples, max |sum of used row noises| , rows with h=0 non-trivial, max |row error|
+static void op_ksreal(const V &a, V &r) {  // n nout t b nsamples seed alpha_num alpha_k
+    int n = a[0], nout = a[1], t = a[2], b = a[3], ns = a[4]; uint32_t seed = (uint32_t) a[5]; int base = 1 << b;
+    double alpha = ldexp((double) a[6], -(int) a[7]);
+    tfhe_random_generator_setSeed(&seed, 1);
+    LweParams *po = new_LweParams(nout, alpha, 0.25), *pi = new_LweParams(n, alpha, 0.25);
+    LweKey *kin = new_LweKey(pi), *kout = new_LweKey(po);
+    lweKeyGen(kin); lweKeyGen(kout);
+    LweKeySwitchKey *ks = new_LweKeySwitchKey(n, t, b, po);
+    lweCreateKeySwitchKey(ks, kin, kout);
+    std::vector<int32_t> e((size_t) n * t * base); ll h0bad = 0, maxrow = 0;
+    for (int i = 0; i < n; i++) for (int j = 0; j < t; j++) for (int h = 0; h < base; h++) {
+        LweSample *row = &ks->ks[i][j][h];
+        int32_t ph = lwePhase(row, kout);
+        int32_t x = (int32_t) ((uint32_t) (kin->key[i] * h) << (32 - (j + 1) * b));
+        int32_t ee = ph - x; e[((size_t) i * t + j) * base + h] = ee;
+        if (h == 0) { bool triv = row->b == 0; for (int m = 0; m < nout; m++) if (row->a[m]) triv = false; if (!triv) h0bad++; }
+        else if (llabs((ll) ee) > maxrow) maxrow = llabs((ll) ee);
+    }
+    LweSample *in = new_LweSample(pi), *res = new_LweSample(po);
+    ll bad = 0, maxsum = 0; const uint32_t prec = 1u << (32 - (1 + b * t));
+    for (int s = 0; s < ns; s++) {
+        for (int i = 0; i < n; i++) in->a[i] = uniformTorus32_distrib(generator);
+        in->b = uniformTorus32_distrib(generator);
+        if (s == 0) for (int i = 0; i < n; i++) in->a[i] = -1;             // wraps when the offset is added
+        if (s == 1) for (int i = 0; i < n; i++) in->a[i] = (int32_t) (prec - 1 + (i & 1));   // rounding tie
+        lweKeySwitch(res, ks, in);
+        uint32_t expect = 0; ll sume = 0;
+        for (int i = 0; i < n; i++) {
+            uint32_t y = (uint32_t) in->a[i] + prec;
+            uint32_t rounded = (b * t == 32) ? y : (y >> (32 - b * t)) << (32 - b * t);
+            if (kin->key[i]) expect += (uint32_t) in->a[i] - rounded;
+            for (int j = 0; j < t; j++) { uint32_t d = (y >> (32 - (j + 1) * b)) & (base - 1); if (d) { expect -= (uint32_t) e[((size_t) i * t + j) * base + d]; sume += e[((size_t) i * t + j) * base + d]; } }
+        }
+        uint32_t got = (uint32_t) lwePhase(res, kout) - (uint32_t) lwePhase(in, kin);
+        if (got != expect) bad++;
+        if (llabs(sume) > maxsum) maxsum = llabs(sume);
+    }
+    r.push_back(bad); r.push_back(ns); r.push_back(maxsum); r.push_back(h0bad); r.push_back(maxrow);
+    delete_LweSample(res); delete_LweSample(in); delete_LweKeySwitchKey(ks); delete_LweKey(kout); delete_LweKey(kin); delete_LweParams(pi); delete_LweParams(po);
+}
+// exhaustive sweep of one mask coefficient over [lo,hi) on a noiseless key (n = 1, s_in = 1, nout = 2):
+// phase_out - phase_in must equal a - round(a), within [-2^(31-tb), 2^(31-tb)); returns failures, first, sum of errors
+static void op_kssweep(const V &a, V &r) {  // t b lo hi
+    int t = a[0], b = a[1]; ll lo = a[2], hi = a[3]; int base = 1 << b; const int nout = 2;
+    LweParams *po = new_LweParams(nout, 0., 0.25), *pi = new_LweParams(1, 0., 0.25);
+    LweKeySwitchKey *ks = new_LweKeySwitchKey(1, t, b, po);
+    int32_t sout[2] = {1, 0};
+    for (int j = 0; j < t; j++) for (int h = 0; h < base; h++) {
+        LweSample *row = &ks->ks[0][j][h];
+        row->a[0] = (int32_t) (0x9E3779B9u * (uint32_t) (j * base + h + 1)); row->a[1] = (int32_t) (0x7F4A7C15u * (uint32_t) (j + 3 * h + 1));
+        row->b = (int32_t) ((uint32_t) h << (32 - (j + 1) * b)) + row->a[0] * sout[0] + row->a[1] * sout[1];
+        if (h == 0) { row->a[0] = 0; row->a[1] = 0; row->b = 0; }
+    }
+    LweSample *in = new_LweSample(pi), *res = new_LweSample(po);
+    ll bad = 0, first = 0, sum = 0; const ll half = 1LL << (31 - t * b);
+    for (ll u = lo; u < hi; u++) {
+        in->a[0] = (int32_t) (uint32_t) u; in->b = 12345;
+        lweKeySwitch(res, ks, in);
+        int32_t pout = res->b - res->a[0] * sout[0] - res->a[1] * sout[1];
+        int32_t pin = in->b - in->a[0];
+        int32_t d = pout - pin;           // = a - round(a) mod 2^32
+        sum += d;
+        if (d < -half || d >= half) { if (!bad) first = u; bad++; }
+    }
+    r.push_back(bad); r.push_back(first); r.push_back(sum);
+    delete_LweSample(res); delete_LweSample(in); delete_LweKeySwitchKey(ks); delete_LweParams(pi); delete_LweParams(po);
+}
+
 // ---- C12: gadget decomposition ----
 static void op_tgswparams(const V &a, V &r) {
     TLweParams *tp = new_TLweParams(8, 1, 0., 0.25);
@@ -134,6 +342,13 @@ int main(int argc, char **argv) {
         else if (op == "dtotp") { double d = ldexp((double) a[0], -(int) a[1]);
             r.push_back(dtot32(d)); r.push_back(dtot32(d + (double) a[2])); }
         else if (op == "msfsweep") sweep_msf(a, r);
+        else if (op == "lwephase") op_lwephase(a, r);
+        else if (op == "lwelin") op_lwelin(a, r);
+        else if (op == "poly") op_poly(a, r);
+        else if (op == "tlwe") op_tlwe(a, r);
+        else if (op == "keyswitch") op_keyswitch(a, r);
+        else if (op == "ksreal") op_ksreal(a, r);
+        else if (op == "kssweep") op_kssweep(a, r);
         else if (op == "decomp") op_decomp(a, r);
         else if (op == "tlwedecomp") op_tlwedecomp(a, r);
         else if (op == "tgswparams") op_tgswparams(a, r);
